@@ -23,11 +23,13 @@ def softplus(x):
     return jnp.log1p(jnp.exp(x))
 
 
-def make_factor(kind, P, pre):
+def make_factor(kind, P, pre, g_zero=False):
     if kind == "general":
         return factor.ConjugateFactor(Lambda=spd(P[pre + "G"]), nu=P[pre + "nu"], ln_beta=P[pre + "lb"])
     if kind == "rank_one":
-        return factor.OneRankFactor(v=P[pre + "v"], g=softplus(P[pre + "g"]), nu=P[pre + "nu"], ln_beta=P[pre + "lb"])
+        # g_zero: the rank-one weight is exactly 0.0 (a valid semi-definite factor) while still depending on a parameter
+        g = softplus(P[pre + "g"]) * (0.0 if g_zero else 1.0)
+        return factor.OneRankFactor(v=P[pre + "v"], g=g, nu=P[pre + "nu"], ln_beta=P[pre + "lb"])
     if kind == "linear":
         return factor.LinearFactor(nu=P[pre + "nu"], ln_beta=P[pre + "lb"])
     if kind == "constant":
@@ -127,9 +129,9 @@ def chain(case, P, d):
     for k, op in enumerate(case["mid"]):
         pre = f"f{k}"
         if op["op"] == "multiply":
-            m = m.multiply(make_factor(op["fkind"], P, pre), update_full=op["update_full"])
+            m = m.multiply(make_factor(op["fkind"], P, pre, op.get("g_zero", False)), update_full=op["update_full"])
         elif op["op"] == "hadamard":
-            m = m.hadamard(make_factor(op["fkind"], P, pre), update_full=op["update_full"])
+            m = m.hadamard(make_factor(op["fkind"], P, pre, op.get("g_zero", False)), update_full=op["update_full"])
         elif op["op"] == "product":
             m = m.product()
         elif op["op"] == "get_density":
@@ -271,6 +273,10 @@ def cond_pipe(case, P, d):
             # weights bounded away from zero (the step / ReLU classes divide by them); the kink h = 0 may lie anywhere,
             # also inside the mass of p(x): the bound is a smooth function of the parameters there as well
             W = jnp.concatenate([W[:, :1], 0.1 + softplus(W[:, 1:])], axis=1)
+            if case.get("dead_unit"):
+                # the noise unit is switched off for every x that carries mass (offset -80: the truncated mass beyond h = 0 is
+                # exactly 0.0 in float64); values and gradients must stay finite
+                W = W.at[:, 0].add(-80.0)
         h = HET[case["link"]](M=P["HM"], b=P["Hb"], A=spd(P["HA"]), W=W)
         if pipe == "het_moments":
             py = h.affine_marginal_transformation(px)
